@@ -12,7 +12,7 @@ META = dict(
 
 def run(ctx):
     # ---- model checking
-    ctx.tlc_mc("util", "PipeConnsMC", "PipeConnsMC.cfg", consts={"OPS": ctx.pick(4, 5)}, workers=4, timeout=1500)
+    ctx.tlc_mc("util", "PipeConnsMC", "PipeConnsMC.cfg", consts={"OPS": ctx.pick(3, 5)}, workers=4, timeout=1500)
     for closers, cap in ctx.pick([("{1}", 1)], [("{1}", 1), ("{1}", 2), ("{1, 2}", 1)]):
         ctx.tlc_mc("util", "InmemListener", "InmemListenerMC.cfg", consts={"CLOSERS": closers, "CAP": cap},
                    workers=4, timeout=1500)
@@ -32,14 +32,9 @@ def run(ctx):
     with open(p, "w") as f:
         for b in beh:
             f.write(json.dumps(b) + "\n")
-    recs = ctx.go_test("fasthttputil", ["c33_pipe"], "^TestVerifC33Pipe$", infile=p, timeout=1500)
-    ctx.absorb(recs)
-    recs = ctx.go_test("fasthttputil", ["c33_pipe"], "^TestVerifC33Stream$", timeout=1500,
-                       env={"VERIF_C33_STREAMS": ctx.pick(150, 1500)})
-    ctx.absorb(recs)
-    # ---- B2 listener
-    recs = ctx.go_test("fasthttputil", ["c33_listener"], "^TestVerifC33Listener$", timeout=1500,
-                       env={"VERIF_C33_TRACES": ctx.pick(120, 1200)})
+    # one build: TestVerifC33Pipe (B1 replay), TestVerifC33Stream (direct), TestVerifC33Listener (B2 log)
+    recs = ctx.go_test("fasthttputil", ["c33_"], "^TestVerifC33", infile=p, timeout=1700,
+                       env={"VERIF_C33_STREAMS": ctx.pick(150, 1500), "VERIF_C33_TRACES": ctx.pick(100, 1200)})
     ctx.absorb(recs)
     tf = ctx.extra.pop("trace_file", None)
     if not tf or not os.path.exists(tf):
